@@ -178,6 +178,12 @@ def r3(ctx: Ctx) -> None:
 def r5(ctx: Ctx) -> None:
     fg = ctx.func(ALLOC, "Allocation.griddify")
     ty, xs, ys, c = griddify_index_check(ctx, fg)
+    b0 = ("b", 1, 0)
+    all_rects = ("comp", "list", (("a", b0, "rect"),), ((b0, ("a", ("self",), "allocations"), ("k", "bool", True)),))
+    ctx.site(fg.where, "boundaries gathered from the rectangles of all cells (fixed ones included)", argument=show(xs[1][2][0])[:120] if xs[1][2] else "")
+    if xs[1] != ("c", ("g", "gather_boundaries"), (all_rects,), ()) or ys[1] != xs[1]:
+        ctx.report(fg.where, f"cut-sources {show(xs[1])[:160]}", "the cut coordinates are not gathered from the rectangles of ALL cells: boundary lines that belong only to the "
+                   "left-out cells (e.g. fixed ones) are never cut, so refinable cells stay crossed by them", lineno=fg.node.lineno)
     loops = [st for st in c if st[0] == "for"]
     ctx.require(len(loops) == 2, "griddify: two cut loops expected")
     for lp, cuts, pred, splitm, axis in [(loops[0], xs, "x_cuttable", "split_horizontal", "x"), (loops[1], ys, "y_cuttable", "split_vertical", "y")]:
